@@ -129,8 +129,24 @@ def check_protocol(op, pts, label, first, stats):
                                  'x=%s became %s' % (x0.tolist(), S.to_flat(x).tolist()))
             yf = S.to_flat(y)
             if yf.dtype.kind in 'fc' and not np.all(np.isfinite(yf)):
-                # the point is outside the domain of definition (singularity): not judged
-                stats['notimpl'] += 1
+                # either the point is outside the domain of definition (singularity: not judged)
+                # or the result contains uninitialised memory: repeat under another poison
+                from mc import poison
+                poison.set_float_fill(12345.678)
+                try:
+                    y2 = S.to_flat(op(S.from_flat(dom, p)))
+                except Exception:
+                    y2 = yf
+                finally:
+                    poison.set_float_fill(np.nan)
+                stats['evals'] += 1
+                if y2.shape != yf.shape or not np.array_equal(y2, yf, equal_nan=True):
+                    first.setdefault((label, 'result_contains_uninitialised_memory'),
+                                     'x=%s: op(x) = %s with NaN-poisoned allocations but %s with '
+                                     'another poison' % (np.asarray(p).tolist(), yf.tolist(),
+                                                         y2.tolist()))
+                else:
+                    stats['notimpl'] += 1
                 continue
             if S.is_field(ran):
                 # out= must be refused for functionals (Operator.__call__: TypeError)
